@@ -72,7 +72,9 @@ def dynamic_case(idx, rng, P, rep):
 
     Dyn.__name__ = f'Dyn{idx}'
     saved = param.Dynamic.time_dependent
-    param.Dynamic.time_dependent = True
+    # (without time dependence every read draws a new number: the state is then observed without reading)
+    td = rng.random() < 0.7
+    param.Dynamic.time_dependent = td
     try:
         o1, o2 = Dyn(), Dyn()
         gen = Counter()
@@ -82,15 +84,23 @@ def dynamic_case(idx, rng, P, rep):
         for _ in range(rng.randint(0, 3)):
             param.Dynamic.time_fn(param.Dynamic.time_fn() + 1)
             o1.x
-        before = dict(x=o1.x, insp=o1.param.inspect_value('x'), d=o2.d, n=gen.n, kc=o1.kc, ro=o1.ro, ckc=Dyn.kc)
+        def state():
+            out = dict(x=o1.x, d=o2.d) if td else {}
+            out.update(insp=o1.param.inspect_value('x'), n=gen.n, kc=o1.kc, ro=o1.ro, ckc=Dyn.kc, g=o1.param.get_value_generator('x') is gen)
+            return out
+        before = state()
         tp = rng.choice(['kc', 'ro'])
-        route = rng.choice(['inst', 'update1', 'class'] if tp == 'ro' else ['inst', 'update1'])
+        route = rng.choice(['inst', 'update1', 'updateN', 'class'] if tp == 'ro' else ['inst', 'update1', 'updateN'])
         raised = None
         try:
             if route == 'inst':
                 setattr(o1, tp, gen)
             elif route == 'class':
                 setattr(Dyn, tp, gen)
+            elif route == 'updateN':
+                # the update also names the parameter the generator is the live value of (re-assigning the generator itself)
+                # (the refused key comes first: nothing of the update is applied)
+                o1.param.update(dict([(tp, rng.choice([gen, 5.0])), ('x', gen)]))
             else:
                 o1.param.update(**{tp: gen})
         except (TypeError, ValueError) as e:
@@ -102,7 +112,7 @@ def dynamic_case(idx, rng, P, rep):
             return
         rep.count('rejected_attempts')
         rep.count('dynamic_attempts')
-        after = dict(x=o1.x, insp=o1.param.inspect_value('x'), d=o2.d, n=gen.n, kc=o1.kc, ro=o1.ro, ckc=Dyn.kc)
+        after = state()
         for k in before:
             if before[k] != after[k] and not (before[k] is gen):
                 rep.violation(f'C02/{desc["kind"]}/{route}/dynamic-value-disturbed',
